@@ -290,6 +290,24 @@ func registerVrt(w *World) {
 		}
 		return False
 	}
+	// vrtJNumFrom(k, form): the JSON number text spelling integer k in the given
+	// form (nfInt: "k", nfDot: "k.0", nfExp: "ke0", nfFrac: k/10 as "x.y")
+	w.Stubs[p+"vrtJNumFrom"] = func(in *Interp, fn *ssa.Function, args []Value) Value {
+		k := args[0].(*Term)
+		form := cint(in, args[1])
+		nt := &NumText{K: k}
+		switch form {
+		case 1 << NFDot:
+			nt.Form = NFDot
+		case 1 << NFExp:
+			nt.Form = NFExp
+		case 1 << 8:
+			nt.Form, nt.Scale = NFDot, 1
+		default:
+			nt.Form = NFInt
+		}
+		return &StrV{Num: nt}
+	}
 	w.Stubs[p+"vrtSameObject"] = func(in *Interp, fn *ssa.Function, args []Value) Value {
 		return BoolC(sameObject(args[0], args[1]))
 	}
